@@ -20,6 +20,8 @@ StructClauses ==
        A == {k + 1 : k \in {Rec.blockA[j] : j \in 1..Len(Rec.blockA)}}
        B == {k + 1 : k \in {Rec.blockB[j] : j \in 1..Len(Rec.blockB)}}
        RLs == [n \in 1..Len(Rec.rlist) |-> Vec(Rec.rlist[n])]
+       (* the operations that were applied (use_symmetries_index): 0-based positions in Rec.ops; all of them = the full group *)
+       H == {O[Rec.sub[j] + 1] : j \in 1..Len(Rec.sub)}
    IN
    [ structure_ok   |-> DistinctSites(S) /\ PrimitiveCell(SG),
      group_complete |-> {O[n] : n \in 1..Len(O)} = SG /\ Len(O) = Cardinality(SG),
@@ -31,20 +33,26 @@ StructClauses ==
                            TripleMap(S, O[e.op + 1], <<Vec(e.R), e.a + 1, e.b + 1>>) = <<Vec(e.R2), e.a2 + 1, e.b2 + 1>>,
      (* any set of representatives will do: inside the listed triples, and every orbit of listed triples is represented
         (which member of an orbit is kept, and whether exactly one, is the implementation's choice) *)
+     subgroup_ok    |-> H \subseteq SG /\ Identity \in H /\ \A g, f \in H : Compose(g, f) \in H,
      irreducible    |-> LET I == {<<Vec(Rec.irr[m][1]), Rec.irr[m][2] + 1, Rec.irr[m][3] + 1>> : m \in 1..Len(Rec.irr)}
                             X == Triples(RLs, A, B)
-                        IN I \subseteq X /\ \A x \in X : Orbit(S, SG, x) \cap I # {} ]
+                        IN I \subseteq X /\ \A x \in X : Orbit(S, H, x) \cap I # {} ]
 SymmClauses ==
    LET S == Sites  SG == SpaceGroupOf(Rec.lat, S)
+       (* the operations the model was symmetrised with and is tested under: an empty list = the full group *)
+       Hs == IF Len(Rec.subops) = 0 THEN SG ELSE {Op(Rec.subops[n]) : n \in 1..Len(Rec.subops)}
        (* inputs on which the per-orbital centre treatment cannot be exact (SymOrbits!MixedCentreSitesFor) are judged by one clause *)
        mixedClass == \E k \in 1..Len(Rec.shells) : MixedCentreSitesFor(Rec.lat, S, SG, Rec.shells[k]) # {}
        covariant == Rec.b_berry <= LimitBerry /\ Rec.b_centres <= Limit /\ Rec.b_idem <= Limit
    IN
    [ structure_ok   |-> DistinctSites(S) /\ PrimitiveCell(SG),
-     shells_allowed |-> \A k \in 1..Len(Rec.shells) : ShellAllowedIn(Rec.lat, SG, Rec.shells[k]),
+     (* projections in site-dependent local frames (rotate_basis): only complete shells, whose span every rotation preserves *)
+     shells_allowed |-> \A k \in 1..Len(Rec.shells) : IF Rec.frames = "site" THEN Rec.shells[k] \in {"s", "p", "d"}
+                                                                              ELSE ShellAllowedIn(Rec.lat, SG, Rec.shells[k]),
+     subgroup_ok    |-> Hs \subseteq SG /\ Identity \in Hs /\ \A g, f \in Hs : Compose(g, f) \in Hs,
      class_recorded |-> Rec.mixed_class = mixedClass,
      (* the harness applies every (W, time reversal) of the specification's point group; it records their number *)
-     group_size     |-> Rec.nops = Cardinality({<<g.W, g.tr>> : g \in SG}),
+     group_size     |-> Rec.nops = Cardinality({<<g.W, g.tr>> : g \in Hs}),
      energy_symmetric |-> Rec.b_energy <= Limit,
      spin_covariant   |-> Rec.b_spin <= Limit,
      hermitian        |-> Rec.b_herm <= Limit,
